@@ -609,7 +609,7 @@ class Gen:
             elif k == 'vunion':
                 f['type'] = ('vec', ('union', r.choice(us))); s.features.add('vec_union')
             elif k == 'nested':
-                f['type'] = ('vec', ('scalar', 'ubyte')); f['nested'] = r.choice(tables + (structs if r.random() < 0.2 and structs else []))
+                f['type'] = ('vec', ('scalar', 'ubyte')); f['nested'] = r.choice(structs) if (structs and r.random() < 0.4) else r.choice(tables)
                 s.features.add('nested_flatbuffer')
             elif k == 'base64':
                 f['type'] = ('vec', ('scalar', r.choice(['ubyte', 'uint8']))); f[r.choice(['base64', 'base64url'])] = True; s.features.add('base64')
